@@ -128,7 +128,9 @@ async fn snapshot_dump(handler: &RaftDataHandler, scratch: &std::path::Path) -> 
     if handler.build_snapshot(writer.clone()).await.is_err() {
         return "snap=err".to_string();
     }
-    if !matches!(writer.send(SnapshotWriterRequest::Flush).await, Ok(Ok(_))) {
+    // the writer answers `Flush` before the flush has run (it is queued as a `wait` future): the answer to a second one
+    // arrives only after the first has completed
+    if !matches!(writer.send(SnapshotWriterRequest::Flush).await, Ok(Ok(_))) || !matches!(writer.send(SnapshotWriterRequest::Flush).await, Ok(Ok(_))) {
         return "snap=flusherr".to_string();
     }
     let mut recs: Vec<(String, Vec<u8>, Vec<u8>)> = vec![];
